@@ -88,7 +88,7 @@ def guarded_by_computed(fi, call):
         if k == "call" and s in ("%s.is_computed" % recv, "%s.is_flushed" % recv):
             return "T" if pos else "F"
         return None
-    return bool(nodes) and kit.path_avoiding_guard(cfg, nodes, g, N) is None
+    return bool(nodes) and kit.path_avoiding_guard(cfg, nodes, g, N, dead_ok=True) is None
 
 
 def run(R):
@@ -130,6 +130,17 @@ def run(R):
     diag_purity(R, ro, allm, "C18.TOTAL")
     R.require_min("C18.TOTAL", 20)
     diag_robust(R, allm, "C18.TOTAL")
+    # a text-producing method hands back a string on every path (`return None` from __repr__ is a TypeError in repr())
+    for m in sorted(allm.values(), key=lambda f: f.qualname):
+        if m.name not in ("__str__", "__repr__", "to_str", "_traceback_line", "traceback") or m.cls is None:
+            continue
+        mcfg = cfg_of(m)
+        rets = [n for n in mcfg.nodes if n.kind == "stmt" and isinstance(n.ast, ast.Return)]
+        empty = [n for n in rets if n.ast.value is None or q.is_none(n.ast.value)]
+        p = mcfg.find_path([mcfg.entry], [mcfg.exit], N, cut_nodes=[n for n in rets if n not in empty])
+        R.check(p is None, "C18.TOTAL", m.qualname + ":returns-text", R.site(m), "%s returns a value on every path" % m.name,
+                "%s.%s can return None: str()/repr() of the object then raises TypeError instead of producing text" % (m.cls.name, m.name),
+                mcfg.fmt_path(p) if p else None)
     # format_asynq_stack() reads the scheduler's active task and walks the creator links: both must be what the property says
     from .c08 import active_own
     active_own(R, ro, "C18.STACK.ACTIVE-OWN")
@@ -498,7 +509,7 @@ def diag_robust(R, allm, rule):
                     if k == "truth" and s_ == base:
                         return "T" if pos else "F"
                     return None
-                ok = bool(nodes) and kit.path_avoiding_guard(cfg, nodes, notnone, N) is None
+                ok = bool(nodes) and kit.path_avoiding_guard(cfg, nodes, notnone, N, dead_ok=True) is None
                 # expression-level guard: `A if base is not None else B`, `base is not None and base.x`
                 if not ok:
                     cur = node
